@@ -98,6 +98,12 @@ func (ex *Exec) VerifyFunction(fn *ssa.Function, c *Contract) {
 	ex.inputs = nil
 	for _, p := range fn.Params {
 		v := ex.fresh(st, p.Type(), p.Name(), 0)
+		for _, n := range c.Nullable {
+			if pv, ok := v.(VPtr); ok && n == p.Name() {
+				pv.NilT = Fresh(p.Name()+".isnil", SBool)
+				v = pv
+			}
+		}
 		args = append(args, v)
 		ex.collectInputs(st, p.Name(), v)
 	}
@@ -109,6 +115,11 @@ func (ex *Exec) VerifyFunction(fn *ssa.Function, c *Contract) {
 	pre := st.clone()
 	ctx0 := &EvalCtx{ex: ex, pre: pre, post: pre, vars: vars, bound: map[string]Value{}, fn: fn}
 	for _, cl := range c.byKind("requires") {
+		if ex.prop == "C20" && strings.Contains(cl.Label, "C20.") && isEntryPoint(fn, c) {
+			// C20 quantifies over every input of an entry point: a precondition tagged C20 is a documented
+			// gap, not an assumption, in the C20 run
+			continue
+		}
 		t, err := ctx0.EvalBool(cl.E)
 		if err != nil {
 			ex.oblige(st, "binding", c.Key+"#binding", allProps(c), TFalse, "requires: "+err.Error())
@@ -410,4 +421,13 @@ func (ex *Exec) VerifyLemma(l *Lemma) {
 		}
 		ex.obls = append(ex.obls, o)
 	}
+}
+
+func isEntryPoint(fn *ssa.Function, c *Contract) bool {
+	for _, p := range c.Serves {
+		if p == "C20" {
+			return true
+		}
+	}
+	return fn.Object() != nil && fn.Object().Exported()
 }
